@@ -60,6 +60,14 @@ def dest_bytes(obs, x):
     return x.dest.getvalue()
 
 
+def complete_contents(obs, x):
+    """The complete objects that may legitimately stand under x's destination name (x's own object, and those of the other
+    downloads aimed at the same name)."""
+    if not isinstance(x.dest, str):
+        return [x.data]
+    return [y.data for y in obs.xfers if y.kind == 'download' and isinstance(y.dest, str) and y.dest == x.dest]
+
+
 def first_diff(a, b):
     n = min(len(a), len(b))
     for i in range(n):
@@ -423,7 +431,7 @@ class DirWatch:
                     st = 'absent'
                 elif cur == x.data and cur == x.prev:
                     st = 'prev=complete'
-                elif cur == x.data:
+                elif cur in complete_contents(obs, x):
                     st = 'complete'
                 elif cur == x.prev:
                     st = 'prev'
@@ -454,6 +462,18 @@ def fs_oracle(obs, x):
             out.append(V(f'{x.label}: the destination name is a directory, yet the download reported success', **mech, sym='success-onto-directory'))
         if cur != ('dir', ['keep']):
             out.append(V(f'{x.label}: the directory at the destination name was changed: now {cur!r}', **mech, sym='dir-destination-changed'))
+        return out
+    shared = len(complete_contents(obs, x)) > 1
+    if shared:
+        # several downloads aimed at this name: whatever stands there must be one of the complete objects (or the previous
+        # content if none succeeded), and a download with nothing wrong with it must not fail
+        ok_any = any(y.outcome == 'success' for y in obs.xfers if y.kind == 'download' and y.dest == x.dest)
+        if cur not in complete_contents(obs, x) and not (cur == x.prev and not ok_any):
+            out.append(V(f'{x.label}: the destination shared by several downloads holds {None if cur is None else len(cur)} bytes that are none of '
+                         f'the complete objects', **mech, sym='shared-destination-corrupt'))
+        if x.outcome == 'raised' and not [r for r in obs.world.director.raised if r['key'].startswith(x.label + '/')] and not isinstance(x.exc, CancelledError):
+            out.append(V(f'{x.label}: download to a destination shared with another download failed although nothing was wrong with it: '
+                         f'{x.exc!r}', **mech, sym='shared-destination-failed'))
         return out
     if x.outcome == 'success':
         if cur != x.data:
